@@ -455,10 +455,18 @@ class VSocket:
         except Exception:
             pass
 
+    def _op(self):
+        # any socket call at all: a loop that keeps shutting down / closing / dialling without ever waiting costs no virtual time
+        net = self._net
+        net.sock_ops += 1
+        if net.sock_ops > net.max_sock_ops:
+            raise HarnessHang('more than %d socket calls in one run: the program spins on its sockets' % net.max_sock_ops)
+
     def settimeout(self, t):
         self.timeout = t
 
     def setblocking(self, b):
+        self._op()
         self.timeout = None if b else 0.0
         self.rec['nonblocking'] = not b
 
@@ -485,6 +493,7 @@ class VSocket:
         self.rec['connected'] = True
 
     def connect_ex(self, addr):
+        self._op()
         # Non-blocking semantics: a real stack answers EINPROGRESS and reports failure later.
         if self.timeout == 0.0:
             srv = self._lookup(addr)
@@ -546,6 +555,7 @@ class VSocket:
         raise socket.timeout('timed out')
 
     def send(self, data):
+        self._op()
         if self.closed:
             raise OSError(errno.EBADF, 'Bad file descriptor')
         c = self.conn
@@ -562,6 +572,7 @@ class VSocket:
         self.send(data)
 
     def shutdown(self, how):
+        self._op()
         if self.closed:
             raise OSError(errno.EBADF, 'Bad file descriptor')
         if self.conn is None:
@@ -571,6 +582,7 @@ class VSocket:
         self.conn.server.log.append((self.conn.idx, 'client_shutdown', None))
 
     def close(self):
+        self._op()
         if not self.closed:
             self._net.open_now -= 1
         self.closed = True
@@ -579,6 +591,7 @@ class VSocket:
             self.conn.closed_by_client = True
 
     def fileno(self):
+        self._op()
         net = self._net
         if self.closed:
             return -1
@@ -666,6 +679,8 @@ class FakeNet:
         self.client_addr = client_addr
         self.lock = threading.RLock()
         self.select_calls = 0
+        self.sock_ops = 0
+        self.max_sock_ops = 500_000
         self.gate = None           # vlib.sched.Scheduler when the harness owns the interleaving
 
     def advance(self, s):
